@@ -29,9 +29,16 @@ def prime():
 def gen(rng, idx, tier):
     kind = CLIENTS[idx % 4] if rng.random() < 0.8 else rng.choice(CLIENTS)
     cfg = gen_config(rng)
-    n = rng.choice([3, 8, 15, 30, 60]) if rng.random() < 0.85 else rng.randrange(60, 121)
-    segs = traffic.wire_stream(rng, kind, n)
-    segs = segs[:120]
+    backlog = rng.random() < 0.06
+    if backlog:
+        # a long run of decodable packets arriving faster than the callback consumes them (deep receive queue)
+        n = rng.choice([150, 250, 400])
+        segs = [("pkt", traffic.tagged_packet(kind, i % 250, src=1 + (i // 250))) for i in range(n)]
+        cfg = {}
+    else:
+        n = rng.choice([3, 8, 15, 30, 60]) if rng.random() < 0.85 else rng.randrange(60, 121)
+        segs = traffic.wire_stream(rng, kind, n)
+        segs = segs[:120]
     packets = [p for _, p in segs]
     chunks, mode = traffic.cuts_for(rng, packets, kind)
     gapmode = rng.random()
@@ -50,6 +57,12 @@ def gen(rng, idx, tier):
         for i in range(130):
             if rng.random() < p:
                 cb["delay"][str(i)] = rng.choice([0.001, 0.01, 0.1, 0.5, 2.0])
+    if backlog:
+        if rng.random() < 0.5:
+            chunks, mode = [4096] * 10, "burst"
+            gaps = [0.0]
+        if rng.random() < 0.7:
+            cb["delay"]["0"] = rng.choice([1.0, 5.0])          # the consumer is stuck in the first callback
     entry = {"a": "accept", "lat": rng.choice([0.0, 0.001, 0.05]), "stream": [[k, p.hex()] for k, p in segs],
              "chunks": chunks, "gaps": gaps, "start": rng.choice([0.0, 0.001, 0.02])}
     total_delay = sum(cb["delay"].values())
